@@ -14,6 +14,8 @@ import Tup.Spec.Decode
     dispmode <fewer>                                      -> a256i a256p skip first other
     getfmt none | idx <n> | rgb <r> <g> <b>               -> none | hex
     display <ph> <fewer> none|idx:<n>|rgb:<r>:<g>:<b> <x>:<y>|- <lf> br|tr|tl|bl  -> ok hex   (display_only)
+    lines9 / stream9 / display9: the same, answered by the model of the code WITHOUT the D9 repair (blank lines have
+      no trailing reset); used by C07/C14, whose properties do not depend on that reset.
   where <ph> = id pid startCol startRow endCol endRow (integers, may be negative),
         <mode> = a256i a256p skip first other,
         <fmt> = n | b=<hex> | r=<defaulthex>[/<row>:<hex>…] | c=<defaulthex>[/<col>.<row>:<hex>…].
@@ -107,6 +109,16 @@ def specReply (t : Term) : String :=
     else some s!"{y},{x},{c.ch},{".".intercalate (c.marks.map toString)},{colorStr c.fg},{colorStr c.ul},{colorStr c.bg}"
   s!"cur={t.cx},{t.cy} sgr={colorStr t.sgr.fg}/{colorStr t.sgr.ul}/{colorStr t.sgr.bg} scrolled={t.scrolled} ph={";".intercalate ph} cells={";".intercalate cells}"
 
+/-- the same requests answered by the model of the code WITHOUT the D9 repair (`lines9`, `stream9`, `display9`) -/
+def styleStream9 (style : String) (r : RawPlaceholder) (m : Mode) (fmt : Fmt) : Option (Except PhErr Bytes) :=
+  match style.splitOn ":" with
+  | ["cur", s, l] => do pure (toStreamUnrepaired r none m fmt (← b? s) (← b? l))
+  | ["lf", n] => do pure ((toLinesUnrepaired r m fmt (← b? n)).map streamLinefeeds)
+  | ["abs", x, y] => do pure (toStreamUnrepaired r (some (← x.toNat?, ← y.toNat?)) m fmt true false)
+  | ["disp", "-", s, l] => do pure (toStreamUnrepaired r none m fmt (← b? s) (← b? l))
+  | ["disp", x, y, s, l] => do pure (toStreamUnrepaired r (some (← x.toNat?, ← y.toNat?)) m fmt (← b? s) (← b? l))
+  | _ => none
+
 def styleStream (style : String) (r : RawPlaceholder) (m : Mode) (fmt : Fmt) : Option (Except PhErr Bytes) :=
   match style.splitOn ":" with
   | ["cur", s, l] => do pure (toStreamAtCursor r m fmt (← b? s) (← b? l))
@@ -116,32 +128,46 @@ def styleStream (style : String) (r : RawPlaceholder) (m : Mode) (fmt : Fmt) : O
   | ["disp", x, y, s, l] => do pure (toStream r (some (← x.toNat?, ← y.toNat?)) m fmt (← b? s) (← b? l))
   | _ => none
 
+def display (nine : Bool) (ph : List String) (fewer bg pos lf fp : String) : String :=
+  let bg? : Option Background := match bg.splitOn ":" with
+    | ["none"] => some .none
+    | ["idx", n] => n.toNat?.map .idx
+    | ["rgb", r, g, bl] => do pure (.rgb (← r.toNat?) (← g.toNat?) (← bl.toNat?))
+    | _ => none
+  let pos? : Option (Option (Nat × Nat)) := match pos.splitOn ":" with
+    | ["-"] => some none
+    | [x, y] => do pure (some (← x.toNat?, ← y.toNat?))
+    | _ => none
+  let fp? : Option FinalPos := match fp with
+    | "br" => some .bottomRight | "tr" => some .topRight | "tl" => some .topLeft | "bl" => some .bottomLeft | _ => none
+  match parsePh ph, b? fewer, bg?, pos?, b? lf, fp? with
+  | some r, some fewer, some bg, some pos, some lf, some fp =>
+      outBytes (if nine then displayOnlyUnrepaired r fewer bg pos lf fp else displayOnly r fewer bg pos lf fp)
+  | _, _, _, _, _, _ => "bad"
+
 def handle : List String → String
   | ["lines", a, b, c, d, e, f, m1, m2, m3, m4, m5, fmt, ne] =>
       match parsePh [a, b, c, d, e, f], parseMode [m1, m2, m3, m4, m5], parseFmt fmt, b? ne with
       | some r, some m, some fm, some ne => if m.valid then outLines (toLines r m fm ne) else errStr .value
       | _, _, _, _ => "bad"
+  | ["lines9", a, b, c, d, e, f, m1, m2, m3, m4, m5, fmt, ne] =>
+      match parsePh [a, b, c, d, e, f], parseMode [m1, m2, m3, m4, m5], parseFmt fmt, b? ne with
+      | some r, some m, some fm, some ne => if m.valid then outLines (toLinesUnrepaired r m fm ne) else errStr .value
+      | _, _, _, _ => "bad"
+  | ["stream9", style, a, b, c, d, e, f, m1, m2, m3, m4, m5, fmt] =>
+      match parsePh [a, b, c, d, e, f], parseMode [m1, m2, m3, m4, m5], parseFmt fmt with
+      | some r, some m, some fm => if !m.valid then errStr .value else (match styleStream9 style r m fm with
+          | some x => outBytes x
+          | none => "bad")
+      | _, _, _ => "bad"
   | ["stream", style, a, b, c, d, e, f, m1, m2, m3, m4, m5, fmt] =>
       match parsePh [a, b, c, d, e, f], parseMode [m1, m2, m3, m4, m5], parseFmt fmt with
       | some r, some m, some fm => if !m.valid then errStr .value else (match styleStream style r m fm with
           | some x => outBytes x
           | none => "bad")
       | _, _, _ => "bad"
-  | ["display", a, b, c, d, e, f, fewer, bg, pos, lf, fp] =>
-      let bg? : Option Background := match bg.splitOn ":" with
-        | ["none"] => some .none
-        | ["idx", n] => n.toNat?.map .idx
-        | ["rgb", r, g, bl] => do pure (.rgb (← r.toNat?) (← g.toNat?) (← bl.toNat?))
-        | _ => none
-      let pos? : Option (Option (Nat × Nat)) := match pos.splitOn ":" with
-        | ["-"] => some none
-        | [x, y] => do pure (some (← x.toNat?, ← y.toNat?))
-        | _ => none
-      let fp? : Option FinalPos := match fp with
-        | "br" => some .bottomRight | "tr" => some .topRight | "tl" => some .topLeft | "bl" => some .bottomLeft | _ => none
-      match parsePh [a, b, c, d, e, f], b? fewer, bg?, pos?, b? lf, fp? with
-      | some r, some fewer, some bg, some pos, some lf, some fp => outBytes (displayOnly r fewer bg pos lf fp)
-      | _, _, _, _, _, _ => "bad"
+  | ["display", a, b, c, d, e, f, fewer, bg, pos, lf, fp] => display false [a, b, c, d, e, f] fewer bg pos lf fp
+  | ["display9", a, b, c, d, e, f, fewer, bg, pos, lf, fp] => display true [a, b, c, d, e, f] fewer bg pos lf fp
   | ["dispmode", fewer] => match b? fewer with
       | some f =>
           let m := displayMode f
